@@ -8,6 +8,7 @@ import (
 	"github.com/pegnet/pegnetd/fat/fat2"
 	"github.com/pegnet/pegnetd/node/pegnet"
 	"github.com/pegnet/pegnetd/zzverif/vrt"
+	log "github.com/sirupsen/logrus"
 )
 
 // ---- protocol constants: a COPY of the specification (mainnet), so that edits of
@@ -76,6 +77,14 @@ func vrtMustAddr(s string) factom.FAAddress {
 		panic("bad spec address " + s)
 	}
 	return a
+}
+
+// vrtLog: a real log entry natively (the code dereferences it); a nil stand-in under the
+// symbolic engine, where logging is a no-op.
+func vrtLog() *log.Entry {
+	l := log.New()
+	l.SetLevel(log.PanicLevel)
+	return log.NewEntry(l)
 }
 
 // vrtNode builds a Pegnetd over a fresh ledger created by the real createTables.
